@@ -173,5 +173,5 @@ def run(ctx):
                   "(standard model) that represents integers with odd part < 2^53 exactly; the bound stream uses exactly this allowance; "
                   "overflow/underflow/NaN out of scope",
                   search=search,
-                  unproved=["that binary64 satisfies the standard model (relative error 2^-53, exact small-odd-part integers) is an assumption of the rounding theorem; overflow / underflow / NaN are outside it",
+                  unproved=["the rounding theorem is instantiated at Flocq FLX(53) round-to-nearest-even; the bounded exponent range (overflow / underflow / NaN) is outside it",
                             "the Fortran evaluator is a different text: the proved allowance is validated on it by the bound stream, not proved for it"])
